@@ -246,14 +246,21 @@ next_item:
             break;
         }
 
-        /* Check if there is something in the SSL buffer. */
-        if (conn->tls)
-            tls_read_bytes += tls_pending(intf);
+        /* Check if there is something in the SSL buffer or undecoded input
+         * in the compression layer. */
+        if (conn->state == XMPP_STATE_CONNECTED)
+            tls_read_bytes += intf->pending(intf);
 
         if (conn->state != XMPP_STATE_DISCONNECTED && conn->sock > max)
             max = conn->sock;
 
         connitem = connitem->next;
+    }
+
+    /* don't wait when buffered input can be processed right away */
+    if (tls_read_bytes) {
+        tv.tv_sec = 0;
+        tv.tv_usec = 0;
     }
 
     /* check for events */
